@@ -28,6 +28,7 @@ M = [
  ('m-c06-optional-exact', 'C06', [('src/ssh_audit/policy.py', "            pruned_host_keys = [x for x in kex.key_algorithms if x not in self._optional_host_keys]", "            pruned_host_keys = [x for x in kex.key_algorithms if x not in self._optional_host_keys[1:]]")], 'first optional host key is not pruned'),
  ('m-c07-masterdb', 'C07', [('src/ssh_audit/ssh2_kexdb.py', "            SSH2_KexDB.DB_PER_THREAD[calling_thread_id] = copy.deepcopy(SSH2_KexDB.MASTER_DB)", "            SSH2_KexDB.DB_PER_THREAD[calling_thread_id] = copy.copy(SSH2_KexDB.MASTER_DB)")], 'per-thread database is a shallow copy'),
  ('m-c07-shared-aconf', 'C07', [('src/ssh_audit/ssh_audit.py', "        my_aconf = copy.deepcopy(shared_aconf)", "        my_aconf = copy.copy(shared_aconf)")], 'worker shares the policy object with the other workers'),
+ ('m-c07-racy-global', 'C07', [('src/ssh_audit/ssh2_kexdb.py', "        return SSH2_KexDB.DB_PER_THREAD[calling_thread_id]", "        SSH2_KexDB._CURRENT = SSH2_KexDB.DB_PER_THREAD[calling_thread_id]  # type: ignore\n        return SSH2_KexDB._CURRENT  # type: ignore")], 'get_db() returns through a class-level temporary: a race only between two lines, with no simulated call in between (needs line-level pre-emption: thorough tier)'),
  ('m-c08-rank', 'C08', [('src/ssh_audit/ssh_audit.py', "ranked_return_codes = [exitcodes.GOOD, exitcodes.WARNING, exitcodes.FAILURE, exitcodes.CONNECTION_ERROR, exitcodes.UNKNOWN_ERROR]", "ranked_return_codes = [exitcodes.GOOD, exitcodes.WARNING, exitcodes.CONNECTION_ERROR, exitcodes.FAILURE, exitcodes.UNKNOWN_ERROR]")], 'rank list reordered'),
  ('m-c08-delim', 'C08', [('src/ssh_audit/ssh_audit.py', "                if num_processed < num_target_servers:", "                if num_processed < num_target_servers - 1:")], 'delimiter logic off by one'),
  ('m-c09-timeout-none', 'C09', [('src/ssh_audit/ssh_socket.py', "                s = socket.socket(af, socket.SOCK_STREAM)\n                s.settimeout(self.__timeout)", "                s = socket.socket(af, socket.SOCK_STREAM)\n                s.settimeout(None)")], 'no socket timeout on outgoing connections'),
